@@ -1,4 +1,5 @@
 import TaskModel.Finger.HistLemmas
+import TaskModel.Finger.TsLemmas
 import TaskModel.Finger.Facts
 /-!
 # C04 — up-to-date soundness: never skip a task whose last attempt did not succeed
@@ -9,21 +10,40 @@ recorded in the ghost log `State.log` by `runBody` (one entry each time the comm
 entered; `ok` iff every command ran and succeeded).
 
 * `C04_full` — for every history, "up to date" implies `goodRun`.  **False** in several
-  independent ways, each a `decide`-checked run of the executable model:
-  `C04_counterexample_kill` (4), `_timestamp_fail` (5), `_listjson` (6, for the wiring as found —
-  repaired by F7), `_collision` (7), `_prompt_timestamp` (3, what is left of it: method timestamp
-  only), and `_timestamp_generates`, `_timestamp_never_ran`, `_timestamp_marker_moves` found while
-  building this check.
-* (3) for method checksum is REPAIRED (F31: a declined prompt goes through `statusOnError`):
-  `C04_prompt_declined_no_entry` (the declined run leaves no checksum entry for the task and logs
-  no attempt), `C04_prompt_declined_next_runs` (so the next run is not skipped),
-  `C04_prompt_declined_fixed` (the former witness is no longer bad).
+  independent ways, each a `decide`-checked run of the executable model (which mirrors the tree
+  with the timestamp fixes TS1–TS3): `C04_counterexample_kill` (4, both methods:
+  `_kill_timestamp`), `_listjson` (6, for the wiring as found — repaired by F7), `_collision` (7),
+  and what is LEFT of method timestamp's defects: `_timestamp_never_ran`,
+  `_timestamp_failed_generates` / `_timestamp_forced_fail_generates` (a failed run that left a
+  `generates` file behind), `_timestamp_marker_created` (an up-to-date check CREATES a missing
+  marker at the time of the check), `_timestamp_generates_by_others` — all four have one root: with
+  method timestamp an existing `generates` file at least as new as every source makes the task up
+  to date, whatever happened to its last attempt.
+* (3) a declined prompt is REPAIRED for both methods (F31: it goes through `statusOnError`; TS3:
+  `TimestampChecker.OnError` removes the marker): `C04_prompt_declined_no_entry` /
+  `C04_timestamp_declined_no_marker` (the declined run leaves no checksum entry / no marker and
+  logs no attempt), `C04_prompt_declined_next_runs`, `C04_timestamp_no_marker_next_runs`,
+  `C04_prompt_declined_fixed`, `C04_timestamp_prompt_declined_fixed`.
+* (5) REPAIRED by TS3: `C04_timestamp_failed_no_marker` (a run or `--force` run that exits
+  `failed` leaves no marker), `C04_timestamp_fail_fixed`; TS1: `C04_timestamp_generates_fixed`
+  (skip ⇒ the generates exist: `C04_timestamp_skip_generates_exist`); TS2:
+  `C04_timestamp_uptodate_check_pure` / `C04_timestamp_checks_pure` (a check that ends in "up to
+  date" leaves an existing marker — the whole state — as it was), hence
+  `C04_timestamp_edit_after_checks_detected` (however many such checks happened, a source written
+  with an mtime after the marker, i.e. after the last run — `C04_timestamp_marker_is_last_run` —
+  is rebuilt), `C04_timestamp_marker_moves_fixed`.
 * `C04_partial` — method checksum, pairwise distinct normalised names, histories of ANY length
   made of arbitrary file operations, successful runs, runs failing inside the command loop, runs
   and `--force` runs CANCELLED AT THE PROMPT, `--force`, `--dry`, `--status`,
   `--list[-all] [--json]`, `--summary` (no kill): skip ⇒ goodRun.  Invariant: "stored checksum
   for `t` = h ⇒ the last attempt at `t` with fingerprint h succeeded"; induction over the list of
   steps.
+* `C04_partial_timestamp` — the same histories (tasks of both methods mixed) for a task with
+  method timestamp and NO positive `generates` pattern (`NoPosGenerates`: then the marker alone
+  decides), distinct marker names (`TsKeysDistinct`) and a clock that does not run backwards
+  (`ClockOK`): skip ⇒ goodRun.  Invariant: "a marker `m` of `t` ⇒ the last attempt at `t`
+  succeeded, at a time ≥ `m`".  With a positive `generates` pattern the statement is false
+  (the four counterexamples above).
 The hash `H` is arbitrary throughout (fingerprints are compared, never inverted).
 -/
 namespace Props.C04
@@ -40,7 +60,7 @@ def C04_full (cfg : Cfg) : Prop :=
 
 private def mk (name : Bytes) (m : Method) (prompt : Bool) (ncmds : Nat) : Task :=
   { name, label := [], method := m, sources := [⟨false, [0]⟩], generates := [], status := [],
-    prompt, dir := none, cmds := List.replicate ncmds ⟨[]⟩ }
+    prompt, dir := none, cmds := List.replicate ncmds ⟨[], none⟩ }
 private def pj (ts : List Task) : Proj := { base := [(0, [97])], dirOf := [], dirLen := [], tasks := ts }
 private def w0 : Step := .op (.write 0 [1] 5)
 private def env (n : Nat) : Env := ⟨n, true, none, none⟩
@@ -62,11 +82,10 @@ theorem C04_prompt_declined_fixed :
     ¬ Bad Cfg.fixed (pj [mk [120] .checksum true 1]) [w0, .inv 0 .run { env 10 with yes := false }] 0
       (mk [120] .checksum true 1) := by decide
 
-/-- (3, method timestamp — still open) the marker is created DURING the check and
-`TimestampChecker.OnError` does nothing: after a declined prompt the next run is skipped, the
-commands never ran (same root as 5). -/
-theorem C04_counterexample_prompt_timestamp :
-    Bad Cfg.fixed (pj [mk [120] .timestamp true 1]) [w0, .inv 0 .run { env 10 with yes := false }] 0
+/-- (3, method timestamp — REPAIRED by TS3) the marker created during the check is removed again by
+`TimestampChecker.OnError`: the former witness is no longer bad. -/
+theorem C04_timestamp_prompt_declined_fixed :
+    ¬ Bad Cfg.fixed (pj [mk [120] .timestamp true 1]) [w0, .inv 0 .run { env 10 with yes := false }] 0
       (mk [120] .timestamp true 1) := by decide
 
 /-- (4) the process is killed between the check and the last command. -/
@@ -74,10 +93,14 @@ theorem C04_counterexample_kill :
     Bad Cfg.fixed (pj [mk [120] .checksum false 2]) [w0, .inv 0 .run { env 10 with killAt := some 1 }] 0
       (mk [120] .checksum false 2) := by decide
 
-/-- (5) method timestamp: `OnError` does nothing and the marker is touched by every check, so a
-failed run makes the next one skip. -/
-theorem C04_counterexample_timestamp_fail :
-    Bad Cfg.fixed (pj [mk [120] .timestamp false 1]) [w0, .inv 0 .run { env 10 with failAt := some 0 }] 0
+/-- (4, method timestamp) the same: the marker touched by the check survives the kill. -/
+theorem C04_counterexample_kill_timestamp :
+    Bad Cfg.fixed (pj [mk [120] .timestamp false 2]) [w0, .inv 0 .run { env 10 with killAt := some 1 }] 0
+      (mk [120] .timestamp false 2) := by decide
+
+/-- (5, REPAIRED by TS3) a failed run removes the marker: the former witness is no longer bad. -/
+theorem C04_timestamp_fail_fixed :
+    ¬ Bad Cfg.fixed (pj [mk [120] .timestamp false 1]) [w0, .inv 0 .run { env 10 with failAt := some 0 }] 0
       (mk [120] .timestamp false 1) := by decide
 
 /-- (6) with the wiring as found, `--list --json` writes the checksum of a task that never ran
@@ -93,23 +116,45 @@ theorem C04_counterexample_collision :
       (mk [97, 58, 98] .checksum false 1) ∧
     sumKey (mk [97, 45, 98] .checksum false 1) = sumKey (mk [97, 58, 98] .checksum false 1) := by decide
 
-/-- (new) method timestamp: once the marker exists a deleted `generates` file goes unnoticed. -/
-theorem C04_counterexample_timestamp_generates :
-    let t : Task := { mk [120] .timestamp false 1 with generates := [⟨false, [1]⟩], cmds := [⟨[(1, [9])]⟩] }
-    Bad Cfg.fixed (pj [t]) [w0, run 0 10, .op (.delete 1)] 0 t := by decide
+/- method timestamp with a `generates` entry: path 1, written by the first of two commands -/
+private def tg : Task := { mk [120] .timestamp false 1 with generates := [⟨false, [1]⟩], cmds := [⟨[(1, [9])], none⟩] }
+private def tg2 : Task := { tg with cmds := [⟨[(1, [9])], none⟩, ⟨[], none⟩] }
 
-/-- (new) method timestamp: a task that never ran is up to date as soon as a generates file is
-newer than its sources (no marker yet: the generates' mtimes alone decide). -/
-theorem C04_counterexample_timestamp_never_ran :
-    let t : Task := { mk [120] .timestamp false 1 with generates := [⟨false, [1]⟩], cmds := [⟨[(1, [9])]⟩] }
-    Bad Cfg.fixed (pj [t]) [w0, .op (.write 1 [8] 7)] 0 t := by decide
+/-- (REPAIRED by TS1) once the marker existed a deleted `generates` file went unnoticed: the former
+witness is no longer bad. -/
+theorem C04_timestamp_generates_fixed : ¬ Bad Cfg.fixed (pj [tg]) [w0, run 0 10, .op (.delete 1)] 0 tg := by decide
 
-/-- (new, same root as 5) every check — also one ending in "up to date" — moves the marker to the
-time of the check: a source whose mtime lies between the last run (10) and the last check (20)
-is never rebuilt. -/
-theorem C04_counterexample_timestamp_marker_moves :
-    Bad Cfg.fixed (pj [mk [120] .timestamp false 1]) [w0, run 0 10, run 0 20, .op (.write 0 [2] 20)] 0
+/-- (REPAIRED by TS2) every check — also one ending in "up to date" — moved the marker to the time
+of the check; now a source whose mtime lies between the last run (10) and the last check (20) is
+rebuilt: the former witness is no longer bad. -/
+theorem C04_timestamp_marker_moves_fixed :
+    ¬ Bad Cfg.fixed (pj [mk [120] .timestamp false 1]) [w0, run 0 10, run 0 20, .op (.write 0 [2] 20)] 0
       (mk [120] .timestamp false 1) := by decide
+
+/-- (open, by design of the method) a task that never ran is up to date as soon as a generates
+file is newer than its sources (no marker yet: the generates' mtimes alone decide). -/
+theorem C04_counterexample_timestamp_never_ran : Bad Cfg.fixed (pj [tg]) [w0, .op (.write 1 [8] 7)] 0 tg := by decide
+
+/-- (open; what is left of 5) a run whose FIRST command wrote the generates file and whose second
+command failed: `OnError` removes the marker, but the generates file is newer than the source … -/
+theorem C04_counterexample_timestamp_failed_generates :
+    Bad Cfg.fixed (pj [tg2]) [w0, .inv 0 .run { env 10 with failAt := some 1 }] 0 tg2 := by decide
+
+/-- … and the same after a failed `--force` run. -/
+theorem C04_counterexample_timestamp_forced_fail_generates :
+    Bad Cfg.fixed (pj [tg2]) [w0, .inv 0 .force { env 10 with failAt := some 1 }] 0 tg2 := by decide
+
+/-- (open; what is left of "the marker is moved by every check") a check that ends in "up to
+date" while NO marker exists (here: after a `--force` run at 10, which does not consult the
+checker) creates it with the time of the check (20): a source whose mtime (15) lies between the
+last run and that check is never rebuilt. -/
+theorem C04_counterexample_timestamp_marker_created :
+    Bad Cfg.fixed (pj [tg]) [w0, .inv 0 .force (env 10), run 0 20, .op (.write 0 [2] 15)] 0 tg := by decide
+
+/-- (open, same root) the generates file is rewritten by something else (another task, an editor)
+after the source was edited. -/
+theorem C04_counterexample_timestamp_generates_by_others :
+    Bad Cfg.fixed (pj [tg]) [w0, run 0 10, .op (.write 0 [2] 15), .op (.write 1 [7] 17)] 0 tg := by decide
 
 theorem C04_full_false : ¬ C04_full Cfg.fixed := by
   intro h
@@ -199,13 +244,13 @@ theorem inv_step (hd : KeysDistinct pr) (st : Step) (s : State) (ha : Allowed st
     intro i t h hti hcs hget
     simp only [step] at hget ⊢
     rw [hf.1] at hget
-    rw [hf.2]
+    rw [hf.2.1]
     exact hinv i t h hti hcs hget
   | inv j m e =>
     have hk : e.killAt = none := ha
     simp only [step]
     by_cases hro : m.readOnly = true
-    · rw [(invoke_readOnly Cfg.fixed H pr rfl rfl j m e s hro).1]; exact hinv
+    · rw [(invoke_readOnly Cfg.fixed H pr rfl rfl rfl j m e s hro).1]; exact hinv
     · cases htj : pr.tasks[j]? with
       | none =>
         have : (invoke Cfg.fixed H pr j m e s).1 = s := by
@@ -257,16 +302,16 @@ theorem inv_step (hd : KeysDistinct pr) (st : Step) (s : State) (ha : Allowed st
           apply inv_of_effect pr hd hinv htj _ _ ok hlog
           · intro x hx
             cases ok with
-            | true => rw [hok rfl]
+            | true => rw [(hok rfl).1]
             | false =>
-              rw [hfail rfl]
+              rw [(hfail rfl).1]
               by_cases hcs : Cs tj
               · rw [if_pos hcs, aget_adel_ne _ (fun e => hx hcs e.symm)]
               · rw [if_neg hcs]
           · intro hcs
             cases ok with
-            | true => exact Or.inl ⟨rfl, Or.inr (by rw [hok rfl])⟩
-            | false => exact Or.inr ⟨rfl, by rw [hfail rfl, if_pos hcs]; simp⟩
+            | true => exact Or.inl ⟨rfl, Or.inr (by rw [(hok rfl).1])⟩
+            | false => exact Or.inr ⟨rfl, by rw [(hfail rfl).1, if_pos hcs]; simp⟩
         | run =>
           rw [invoke_run Cfg.fixed H pr htj]
           obtain ⟨hclog, hcfiles, hcother, hckey, hcskip⟩ := isUpToDate_effect H pr tj e.now s
@@ -283,16 +328,16 @@ theorem inv_step (hd : KeysDistinct pr) (st : Step) (s : State) (ha : Allowed st
             apply inv_of_effect pr hd hinv htj _ _ ok hlog
             · intro x hx
               cases ok with
-              | true => rw [hok rfl]; exact hcother x hx
+              | true => rw [(hok rfl).1]; exact hcother x hx
               | false =>
-                rw [hfail rfl]
+                rw [(hfail rfl).1]
                 by_cases hcs : Cs tj
                 · rw [if_pos hcs, aget_adel_ne _ (fun e => hx hcs e.symm)]; exact hcother x hx
                 · rw [if_neg hcs]; exact hcother x hx
             · intro hcs
               cases ok with
-              | true => exact Or.inl ⟨rfl, Or.inl (by rw [hok rfl]; exact hckey hcs)⟩
-              | false => exact Or.inr ⟨rfl, by rw [hfail rfl, if_pos hcs]; simp⟩
+              | true => exact Or.inl ⟨rfl, Or.inl (by rw [(hok rfl).1]; exact hckey hcs)⟩
+              | false => exact Or.inr ⟨rfl, by rw [(hfail rfl).1, if_pos hcs]; simp⟩
         | dry => simp [Mode.readOnly] at hro
         | status => simp [Mode.readOnly] at hro
         | listJson => simp [Mode.readOnly] at hro
@@ -365,6 +410,316 @@ theorem C04_prompt_declined_next_runs (cfg : Cfg) {i : Nat} {t : Task} (ht : pr.
     rw [sumCheck_result, hnone] at hsum
     simp at hsum
 
+/-! ## Method timestamp after TS1–TS3: what is true now -/
+
+/-- **a declined prompt leaves no marker** (TS3, analogue of `C04_prompt_declined_no_entry`): a run
+of a timestamp task that is not up to date and is cancelled at the prompt exits `cancelled`, starts
+no command, logs no attempt, and the marker the check had created/touched is gone again. -/
+theorem C04_timestamp_declined_no_marker (cfg : Cfg) {i : Nat} {t : Task} (ht : pr.tasks[i]? = some t) (hts : Ts t)
+    (e : Env) (s : State) (hdec : Declined t e) (hns : (invoke cfg H pr i .run e s).2.skipped = false) :
+    aget (invoke cfg H pr i .run e s).1.marks (tsKey t) = none ∧
+    (invoke cfg H pr i .run e s).2.exit = .cancelled ∧ (invoke cfg H pr i .run e s).2.ran = [] ∧
+    (invoke cfg H pr i .run e s).1.log = s.log ∧ (invoke cfg H pr i .run e s).1.files = s.files := by
+  rw [invoke_run cfg H pr ht] at hns ⊢
+  by_cases hup : (isUpToDate H pr t false e.now s).2 = true
+  · rw [if_pos hup] at hns; cases hns
+  · rw [if_neg hup, runBody_declined cfg H pr i t e _ hdec]
+    refine ⟨?_, rfl, rfl, ?_, ?_⟩
+    · simp only [onError_marks, if_pos hts]; simp
+    · simp only [onError_log]; exact (isUpToDate_effect H pr t e.now s).1
+    · simp only [(onError_files t _).1]; exact (isUpToDate_effect H pr t e.now s).2.1
+
+/-- **a failed run leaves no marker** (TS3): a run or `--force` run of a timestamp task that exits
+`failed` (a command failed) ends with the marker removed — whatever the check did before. -/
+theorem C04_timestamp_failed_no_marker (cfg : Cfg) {i : Nat} {t : Task} (ht : pr.tasks[i]? = some t) (hts : Ts t)
+    (m : Mode) (hm : m = .run ∨ m = .force) (e : Env) (s : State)
+    (hf : (invoke cfg H pr i m e s).2.exit = .failed) :
+    aget (invoke cfg H pr i m e s).1.marks (tsKey t) = none := by
+  rcases hm with rfl | rfl
+  · rw [invoke_run cfg H pr ht] at hf ⊢
+    by_cases hup : (isUpToDate H pr t false e.now s).2 = true
+    · rw [if_pos hup] at hf; cases hf
+    · rw [if_neg hup] at hf ⊢
+      rw [runBody_failed_marks cfg H pr i t e _ hf, if_pos hts]; simp
+  · rw [invoke_force cfg H pr ht] at hf ⊢
+    rw [runBody_failed_marks cfg H pr i t e _ hf, if_pos hts]; simp
+
+/-- **without a marker only the generates can vouch**: if no marker exists and the run is skipped,
+some `generates` file exists and is at least as new as every source (and every entry matches). -/
+theorem C04_timestamp_no_marker_skip_needs_generates (cfg : Cfg) {i : Nat} {t : Task} (ht : pr.tasks[i]? = some t)
+    (hts : Ts t) (e : Env) (s : State) (hmk : aget s.marks (tsKey t) = none)
+    (hsk : (invoke cfg H pr i .run e s).2.skipped = true) :
+    globs (nowPats t.generates s.files) ≠ [] ∧ gensOk t s.files = true ∧
+    ∀ p ∈ srcsNow t s.files,
+      mtimeOf s.files p ≤ maxOf ((globs (nowPats t.generates s.files)).map (mtimeOf s.files)) := by
+  have hup := tsUp_of_upToDate H pr hts false e.now s (run_skipped cfg H pr ht e s hsk)
+  rw [tsUp_iff] at hup
+  unfold tsGts at hup
+  simp only [hmk, List.append_nil] at hup
+  refine ⟨fun h => hup.1 (by simp [h]), hup.2.2, hup.2.1⟩
+
+/-- … so **after a failed run or a declined prompt the next run is not skipped** unless a
+`generates` file is there to vouch (`C04_counterexample_timestamp_failed_generates`). -/
+theorem C04_timestamp_no_marker_next_runs (cfg : Cfg) {i : Nat} {t : Task} (ht : pr.tasks[i]? = some t)
+    (hts : Ts t) (e : Env) (s : State) (hmk : aget s.marks (tsKey t) = none)
+    (hng : globs (nowPats t.generates s.files) = []) :
+    (invoke cfg H pr i .run e s).2.skipped = false := by
+  cases hsk : (invoke cfg H pr i .run e s).2.skipped with
+  | false => rfl
+  | true => exact absurd hng (C04_timestamp_no_marker_skip_needs_generates H pr cfg ht hts e s hmk hsk).1
+
+/-- the two together, for the declined prompt (the files are those of before) -/
+theorem C04_timestamp_declined_next_runs (cfg : Cfg) {i : Nat} {t : Task} (ht : pr.tasks[i]? = some t) (hts : Ts t)
+    (e e2 : Env) (s : State) (hdec : Declined t e) (hns : (invoke cfg H pr i .run e s).2.skipped = false)
+    (hng : globs (nowPats t.generates s.files) = []) :
+    (invoke cfg H pr i .run e2 (invoke cfg H pr i .run e s).1).2.skipped = false := by
+  have h := C04_timestamp_declined_no_marker H pr cfg ht hts e s hdec hns
+  exact C04_timestamp_no_marker_next_runs H pr cfg ht hts e2 _ h.1 (by rw [h.2.2.2.2]; exact hng)
+
+/-- **skip ⇒ the generates exist** (TS1) -/
+theorem C04_timestamp_skip_generates_exist (cfg : Cfg) {i : Nat} {t : Task} (ht : pr.tasks[i]? = some t) (hts : Ts t)
+    (e : Env) (s : State) (hsk : (invoke cfg H pr i .run e s).2.skipped = true) : gensOk t s.files = true :=
+  ((tsUp_iff t s).mp (tsUp_of_upToDate H pr hts false e.now s (run_skipped cfg H pr ht e s hsk))).2.2
+
+/-- **an up-to-date check is pure** (TS2): a run of a timestamp task that is reported up to date
+while its marker exists changes NOTHING — in particular not the marker's mtime. -/
+theorem C04_timestamp_uptodate_check_pure (cfg : Cfg) {i : Nat} {t : Task} (ht : pr.tasks[i]? = some t) (hts : Ts t)
+    (e : Env) (s : State) (hmk : (aget s.marks (tsKey t)).isSome = true)
+    (hsk : (invoke cfg H pr i .run e s).2.skipped = true) : (invoke cfg H pr i .run e s).1 = s := by
+  have hup := run_skipped cfg H pr ht e s hsk
+  have hts' := tsUp_of_upToDate H pr hts false e.now s hup
+  rw [invoke_run cfg H pr ht, if_pos hup, isUpToDate_ts H pr hts]
+  exact tsCheck_upToDate_pure t false e.now s hmk (by rw [tsCheck_result]; exact hts')
+
+/-- a sequence of runs of task `i` -/
+def checks (i : Nat) (es : List Env) : List Step := es.map (fun e => Step.inv i .run e)
+
+/-- every observation is "up to date" -/
+def AllSkipped (obs : List (Option Obs)) : Prop :=
+  obs.all (fun o => match o with | some ob => ob.skipped | none => false) = true
+
+instance (obs : List (Option Obs)) : Decidable (AllSkipped obs) := by unfold AllSkipped; infer_instance
+
+/-- … **however many of them**: any number of runs that are all reported up to date leave the state
+(the marker) exactly as it was. -/
+theorem C04_timestamp_checks_pure (cfg : Cfg) {i : Nat} {t : Task} (ht : pr.tasks[i]? = some t) (hts : Ts t)
+    (es : List Env) (s : State) (hmk : (aget s.marks (tsKey t)).isSome = true)
+    (hall : AllSkipped (runHist cfg H pr (checks i es) s).2) : (runHist cfg H pr (checks i es) s).1 = s := by
+  induction es with
+  | nil => rfl
+  | cons e es ih =>
+    simp only [checks, List.map_cons, runHist, step, AllSkipped, List.all_cons, Bool.and_eq_true] at hall ⊢
+    have hpure := C04_timestamp_uptodate_check_pure H pr cfg ht hts e s hmk hall.1
+    rw [hpure] at hall ⊢
+    exact ih hall.2
+
+/-- **the marker is the time of the last run**: a run that the timestamp check itself asked for
+(`tsUp = false`) and that was neither cancelled nor failed (it exits `ok`, or the process is killed)
+leaves the marker at the time of that run. -/
+theorem C04_timestamp_marker_is_last_run (cfg : Cfg) {i : Nat} {t : Task} (ht : pr.tasks[i]? = some t) (hts : Ts t)
+    (e : Env) (s : State) (hno : tsUp t s = false)
+    (h1 : (invoke cfg H pr i .run e s).2.exit ≠ .failed) (h2 : (invoke cfg H pr i .run e s).2.exit ≠ .cancelled) :
+    aget (invoke cfg H pr i .run e s).1.marks (tsKey t) = some e.now := by
+  have hup : ¬ (isUpToDate H pr t false e.now s).2 = true := fun h => by
+    rw [tsUp_of_upToDate H pr hts false e.now s h] at hno; cases hno
+  rw [invoke_run cfg H pr ht, if_neg hup] at h1 h2 ⊢
+  rw [runBody_marks_kept cfg H pr i t e _ h1 h2, isUpToDate_ts H pr hts]
+  exact tsCheck_stored t e.now s (by rw [tsCheck_result]; exact hno)
+
+/-- **an edit after the last run is detected, whatever was checked in between** (the precise
+statement TS2 makes true): let the marker of `t` be `m` (the time of its last run), let any number of
+runs follow that are all reported up to date, then let a source `p` (matched by `t`'s `sources`) be
+written with an mtime `mt > m` that is also newer than every existing `generates` file.  The next
+run is NOT skipped.  (Before TS2 the checks in between had moved the marker past `mt`:
+`C04_timestamp_marker_moves_fixed`.) -/
+theorem C04_timestamp_edit_after_checks_detected (cfg : Cfg) {i : Nat} {t : Task} (ht : pr.tasks[i]? = some t)
+    (hts : Ts t) (es : List Env) (s : State) (m : Nat) (hmk : aget s.marks (tsKey t) = some m)
+    (hall : AllSkipped (runHist cfg H pr (checks i es) s).2)
+    (p : Path) (c : Bytes) (mt : Nat) (hp : lastFlag t.sources p = some true) (hmt : m < mt)
+    (hgen : ∀ g ∈ globs (nowPats t.generates (aset s.files p ⟨c, mt⟩)), mtimeOf (aset s.files p ⟨c, mt⟩) g < mt)
+    (e : Env) :
+    (invoke cfg H pr i .run e (applyOp pr (.write p c mt) (runHist cfg H pr (checks i es) s).1)).2.skipped = false := by
+  rw [C04_timestamp_checks_pure H pr cfg ht hts es s (by rw [hmk]; rfl) hall]
+  have hfiles : (applyOp pr (.write p c mt) s).files = aset s.files p ⟨c, mt⟩ := rfl
+  have hmarks : (applyOp pr (.write p c mt) s).marks = s.marks := rfl
+  generalize applyOp pr (.write p c mt) s = s' at hfiles hmarks
+  have hmt' : mtimeOf s'.files p = mt := by rw [hfiles]; simp [mtimeOf]
+  have hfalse : tsUp t s' = false := by
+    apply tsUp_false_of_newer t s' p
+    · rw [mem_srcsNow, hfiles, ahas_aset]; simp [hp]
+    · intro x hx
+      unfold tsGts at hx
+      rw [hmarks, hmk, hfiles] at hx
+      rw [hmt']
+      simp only [List.mem_append, List.mem_map, List.mem_singleton] at hx
+      rcases hx with ⟨g, hg, rfl⟩ | rfl
+      · exact hgen g hg
+      · exact hmt
+    · rw [hmt']; omega
+  cases hsk : (invoke cfg H pr i .run e s').2.skipped with
+  | false => rfl
+  | true =>
+    rw [tsUp_of_upToDate H pr hts false e.now s' (run_skipped cfg H pr ht e s' hsk)] at hfalse
+    cases hfalse
+
+/-! ## The partial theorem for method timestamp -/
+
+/-- pairwise distinct marker names among the timestamp tasks -/
+def TsKeysDistinct (pr : Proj) : Prop :=
+  ∀ (i j : Nat) (ti tj : Task), pr.tasks[i]? = some ti → pr.tasks[j]? = some tj → Ts ti → Ts tj →
+    tsKey ti = tsKey tj → i = j
+
+/-- the clock of the invocations does not run backwards (`c` = the time of the latest invocation
+so far); file operations may carry any mtime -/
+def clockOK : Nat → List Step → Bool
+  | _, [] => true
+  | c, .op _ :: r => clockOK c r
+  | c, .inv _ _ e :: r => decide (c ≤ e.now) && clockOK e.now r
+
+def ClockOK (c : Nat) (hist : List Step) : Prop := clockOK c hist = true
+
+instance (c : Nat) (hist : List Step) : Decidable (ClockOK c hist) := by unfold ClockOK; infer_instance
+
+/-- the invariant: a marker `m` of task `i` is not in the future, and the last attempt at `i`
+succeeded, at a time ≥ `m` -/
+def InvTs (i : Nat) (t : Task) (c : Nat) (s : State) : Prop :=
+  ∀ m, aget s.marks (tsKey t) = some m →
+    m ≤ c ∧ ∃ a, lastAtt (fun a => decide (a.task = i)) s.log = some a ∧ a.ok = true ∧ m ≤ a.time
+
+theorem invTs_empty (i : Nat) (t : Task) (c : Nat) : InvTs i t c State.empty := by
+  intro m hm; simp [State.empty] at hm
+
+theorem invTs_mono {i : Nat} {t : Task} {c c' : Nat} {s : State} (h : InvTs i t c s) (hc : c ≤ c') : InvTs i t c' s := by
+  intro m hm
+  obtain ⟨h1, h2⟩ := h m hm
+  exact ⟨Nat.le_trans h1 hc, h2⟩
+
+/-- the body of an invocation of task `i` itself (no kill): afterwards either no marker is left
+(cancelled, failed) or the attempt just logged succeeded at `e.now`, which no marker exceeds -/
+theorem invTs_body {i : Nat} {t : Task} (hts : Ts t) (e : Env) (hk : e.killAt = none) (s1 : State)
+    (hle : ∀ m, aget s1.marks (tsKey t) = some m → m ≤ e.now) :
+    InvTs i t e.now (runBody Cfg.fixed H pr i t false e s1).1 := by
+  by_cases hdec : Declined t e
+  · rw [runBody_declined Cfg.fixed H pr i t e s1 hdec]
+    intro m hm
+    simp only [onError_marks, if_pos hts] at hm
+    simp at hm
+  · obtain ⟨ok, hlog, hok, hfail⟩ := runBody_effect Cfg.fixed H pr i t e s1 (passes_of_not_declined hk hdec)
+    intro m hm
+    cases ok with
+    | false =>
+      rw [(hfail rfl).2.1, if_pos hts] at hm
+      simp at hm
+    | true =>
+      rw [(hok rfl).2] at hm
+      refine ⟨hle m hm, ⟨i, fpNow H pr t s1.files, e.now, true⟩, ?_, rfl, hle m hm⟩
+      rw [hlog, lastAtt_append]
+      simp
+
+/-- every allowed step keeps the invariant (the clock moves to the time of the invocation) -/
+theorem invTs_step (hd : TsKeysDistinct pr) {i : Nat} {t : Task} (ht : pr.tasks[i]? = some t) (hts : Ts t)
+    (hng : NoPosGenerates t) (c : Nat) (s : State) (hinv : InvTs i t c s) :
+    (∀ o, InvTs i t c (step Cfg.fixed H pr (.op o) s).1) ∧
+    (∀ j m e, e.killAt = none → c ≤ e.now → InvTs i t e.now (step Cfg.fixed H pr (.inv j m e) s).1) := by
+  constructor
+  · intro o
+    have hf := applyOp_fields pr o s
+    intro m hm
+    simp only [step] at hm ⊢
+    rw [hf.2.2] at hm
+    rw [hf.2.1]
+    exact hinv m hm
+  · intro j m e hk hce
+    have hinv' : InvTs i t e.now s := invTs_mono hinv hce
+    simp only [step]
+    by_cases hro : m.readOnly = true
+    · rw [(invoke_readOnly Cfg.fixed H pr rfl rfl rfl j m e s hro).1]; exact hinv'
+    · cases htj : pr.tasks[j]? with
+      | none =>
+        have : (invoke Cfg.fixed H pr j m e s).1 = s := by
+          cases m <;> simp [Mode.readOnly] at hro <;> simp [invoke, htj]
+        rw [this]; exact hinv'
+      | some tj =>
+        by_cases hij : j = i
+        · -- an invocation of the task itself
+          subst hij
+          have htt : tj = t := by rw [ht] at htj; exact (Option.some.inj htj).symm
+          subst htt
+          have hle : ∀ m, aget s.marks (tsKey tj) = some m → m ≤ e.now := fun m hm => (hinv' m hm).1
+          cases m with
+          | force =>
+            rw [invoke_force Cfg.fixed H pr htj]
+            exact invTs_body H pr hts e hk s hle
+          | run =>
+            rw [invoke_run Cfg.fixed H pr htj]
+            split
+            · rename_i hup
+              have hup' := tsUp_of_upToDate H pr hts false e.now s hup
+              obtain ⟨m0, hm0, _⟩ := (tsUp_noPos hng s).mp hup'
+              have hpure : (isUpToDate H pr tj false e.now s).1 = s := by
+                rw [isUpToDate_ts H pr hts]
+                exact tsCheck_upToDate_pure tj false e.now s (by rw [hm0]; rfl) (by rw [tsCheck_result]; exact hup')
+              simp only [hpure]; exact hinv'
+            · apply invTs_body H pr hts e hk
+              intro m hm
+              rw [isUpToDate_ts H pr hts] at hm
+              simp only at hm
+              rcases tsCheck_marker_after tj e.now s with h | ⟨_, hs, _⟩
+              · rw [h] at hm; cases hm; exact Nat.le_refl _
+              · rw [hs] at hm; exact hle m hm
+          | dry => simp [Mode.readOnly] at hro
+          | status => simp [Mode.readOnly] at hro
+          | listJson => simp [Mode.readOnly] at hro
+          | list => simp [Mode.readOnly] at hro
+          | summary => simp [Mode.readOnly] at hro
+        · -- an invocation of another task: neither `t`'s marker nor its attempts change
+          have hx : Ts tj → tsKey t ≠ tsKey tj := fun htsj e' => hij (hd i j t tj ht htj hts htsj e').symm
+          intro m0 hm0
+          rw [invoke_marks_other H pr htj m e s _ hx] at hm0
+          obtain ⟨h1, a, ha1, ha2, ha3⟩ := hinv' m0 hm0
+          refine ⟨h1, a, ?_, ha2, ha3⟩
+          rcases invoke_log H pr j m e s with hl | ⟨fp, ok, hl⟩
+          · rw [hl]; exact ha1
+          · rw [hl, lastAtt_append]
+            simp [hij, ha1]
+
+/-- … hence every allowed history with a clock that does not run backwards does -/
+theorem invTs_hist (hd : TsKeysDistinct pr) {i : Nat} {t : Task} (ht : pr.tasks[i]? = some t) (hts : Ts t)
+    (hng : NoPosGenerates t) (hist : List Step) (c : Nat) (s : State) (ha : ∀ st ∈ hist, Allowed st)
+    (hclk : ClockOK c hist) (hinv : InvTs i t c s) : ∃ c', InvTs i t c' (runHist Cfg.fixed H pr hist s).1 := by
+  induction hist generalizing c s with
+  | nil => exact ⟨c, hinv⟩
+  | cons st rest ih =>
+    simp only [runHist]
+    have hstep := invTs_step H pr hd ht hts hng c s hinv
+    cases st with
+    | op o => exact ih c _ (fun x hx => ha x (by simp [hx])) hclk (hstep.1 o)
+    | inv j m e =>
+      have hk : e.killAt = none := ha (.inv j m e) (by simp)
+      simp only [ClockOK, clockOK, Bool.and_eq_true, decide_eq_true_eq] at hclk
+      exact ih e.now _ (fun x hx => ha x (by simp [hx])) hclk.2 (hstep.2 j m e hk hclk.1)
+
+/-- **C04_partial_timestamp**: for a task fingerprinted with method timestamp that has no positive
+`generates` pattern, in a project whose timestamp tasks have pairwise distinct marker names, after
+ANY history of allowed steps (tasks of both methods, successful / failing / cancelled runs,
+`--force`, the read-only modes, arbitrary file operations; no kill) whose invocations carry a
+non-decreasing clock: if a run reports the task up to date then `goodRun` holds. -/
+theorem C04_partial_timestamp (hd : TsKeysDistinct pr) (hist : List Step) (ha : ∀ st ∈ hist, Allowed st)
+    (hclk : ClockOK 0 hist) (i : Nat) (t : Task) (e : Env) (ht : pr.tasks[i]? = some t) (hm : t.method = .timestamp)
+    (hsrc : t.sources.isEmpty = false) (hng : NoPosGenerates t)
+    (hskip : (invoke Cfg.fixed H pr i .run e (runHist Cfg.fixed H pr hist State.empty).1).2.skipped = true) :
+    goodRun H pr i t (runHist Cfg.fixed H pr hist State.empty).1 = true := by
+  have hts : Ts t := ⟨hm, hsrc⟩
+  obtain ⟨c, hinv⟩ := invTs_hist H pr hd ht hts hng hist 0 State.empty ha hclk (invTs_empty i t 0)
+  generalize (runHist Cfg.fixed H pr hist State.empty).1 = s at *
+  have hup := tsUp_of_upToDate H pr hts false e.now s (run_skipped Cfg.fixed H pr ht e s hskip)
+  obtain ⟨m, hmk, hle⟩ := (tsUp_noPos hng s).mp hup
+  obtain ⟨_, a, ha1, ha2, ha3⟩ := hinv m hmk
+  unfold goodRun
+  simp only [hm, (noPos_gens hng s.files).2, ha1, ha2, Bool.true_and, List.all_eq_true, decide_eq_true_eq]
+  intro p hp
+  exact Nat.le_trans (hle p hp) ha3
+
 end
 
 /-- non-vacuity: a history using every allowed kind of step (edit, successful run, failing run,
@@ -402,5 +757,106 @@ example : KeysDistinct (pj [mk [120] .checksum false 2, mk [121] .checksum true 
   | i + 2, _ => simp [pj] at hi
   | 0, j + 2 => simp [pj] at hj
   | 1, j + 2 => simp [pj] at hj
+
+/-- the statement of `C04_partial_timestamp` WITHOUT the side condition on `generates` -/
+def C04_timestamp_with_generates : Prop :=
+  ∀ (H : Bytes → Bytes) (pr : Proj), TsKeysDistinct pr → ∀ (hist : List Step), (∀ st ∈ hist, Allowed st) → ClockOK 0 hist →
+    ∀ (i : Nat) (t : Task) (e : Env), pr.tasks[i]? = some t → t.method = .timestamp → t.sources.isEmpty = false →
+      (invoke Cfg.fixed H pr i .run e (runHist Cfg.fixed H pr hist State.empty).1).2.skipped = true →
+      goodRun H pr i t (runHist Cfg.fixed H pr hist State.empty).1 = true
+
+/-- … is false of the patched tree too: the never-ran witness (one task, two file writes, no kill) -/
+theorem C04_timestamp_with_generates_false : ¬ C04_timestamp_with_generates := by
+  intro h
+  have hb := C04_counterexample_timestamp_never_ran
+  have hd : TsKeysDistinct (pj [tg]) := by
+    intro i j ti tj hi hj _ _ _
+    match i, j with
+    | 0, 0 => rfl
+    | i + 1, _ => simp [pj] at hi
+    | 0, j + 1 => simp [pj] at hj
+  have := h id (pj [tg]) hd [w0, .op (.write 1 [8] 7)] (by intro st hst; simp at hst; rcases hst with h | h <;> subst h <;> simp [Allowed, w0])
+    (by decide) 0 tg (env 99) hb.1 (by decide) hb.2.1 hb.2.2.1
+  rw [hb.2.2.2] at this
+  cases this
+
+/-! ## non-vacuity of the timestamp theorems -/
+
+/-- declined prompt: a timestamp task with a prompt; the check creates the marker, the cancelled run
+removes it again, and (no generates file) the next run is not skipped -/
+example :
+    let t := mk [120] .timestamp true 1
+    let e : Env := { env 10 with yes := false }
+    let s := (runHist Cfg.fixed id (pj [t]) [w0] State.empty).1
+    Ts t ∧ Declined t e ∧ (invoke Cfg.fixed id (pj [t]) 0 .run e s).2.skipped = false ∧
+    (isUpToDate id (pj [t]) t false 10 s).1.marks ≠ [] ∧ (invoke Cfg.fixed id (pj [t]) 0 .run e s).1.marks = [] ∧
+    globs (nowPats t.generates s.files) = [] ∧
+    (invoke Cfg.fixed id (pj [t]) 0 .run (env 20) (invoke Cfg.fixed id (pj [t]) 0 .run e s).1).2.ran = [0] := by decide
+
+/-- failed run / failed `--force` run: exit `failed`, a marker (of an earlier successful run) is there
+before and gone afterwards -/
+example :
+    let t := mk [120] .timestamp false 1
+    let s := (runHist Cfg.fixed id (pj [t]) [w0, run 0 10, .op (.touch 0 15)] State.empty).1
+    let ef : Env := { env 20 with failAt := some 0 }
+    Ts t ∧ aget s.marks (tsKey t) = some 10 ∧
+    (invoke Cfg.fixed id (pj [t]) 0 .run ef s).2.exit = .failed ∧ (invoke Cfg.fixed id (pj [t]) 0 .run ef s).1.marks = [] ∧
+    (invoke Cfg.fixed id (pj [t]) 0 .force ef s).2.exit = .failed ∧ (invoke Cfg.fixed id (pj [t]) 0 .force ef s).1.marks = [] := by
+  decide
+
+/-- without a marker a skip needs generates: the never-ran witness meets the hypotheses -/
+example :
+    let s := (runHist Cfg.fixed id (pj [tg]) [w0, .op (.write 1 [8] 7)] State.empty).1
+    Ts tg ∧ aget s.marks (tsKey tg) = none ∧ (invoke Cfg.fixed id (pj [tg]) 0 .run (env 99) s).2.skipped = true ∧
+    globs (nowPats tg.generates s.files) = [1] := by decide
+
+/-- the up-to-date checks and the edit: marker 10 after the run at 10; two runs (20, 30) are reported
+up to date and change nothing; the source is then written with mtime 25 (> 10, newer than the
+generates file written at 10) and the run at 40 executes the command.  `marker_is_last_run`: the
+run at 10 was asked for by the timestamp check. -/
+example :
+    let s0 := (runHist Cfg.fixed id (pj [tg]) [w0] State.empty).1
+    let s := (invoke Cfg.fixed id (pj [tg]) 0 .run (env 10) s0).1
+    Ts tg ∧ tsUp tg s0 = false ∧ (invoke Cfg.fixed id (pj [tg]) 0 .run (env 10) s0).2.exit = .ok ∧
+    aget s.marks (tsKey tg) = some 10 ∧
+    AllSkipped (runHist Cfg.fixed id (pj [tg]) (checks 0 [env 20, env 30]) s).2 ∧
+    (runHist Cfg.fixed id (pj [tg]) (checks 0 [env 20, env 30]) s).1 = s ∧
+    lastFlag tg.sources 0 = some true ∧
+    (∀ g ∈ globs (nowPats tg.generates (aset s.files 0 ⟨[2], 25⟩)), mtimeOf (aset s.files 0 ⟨[2], 25⟩) g < 25) ∧
+    (invoke Cfg.fixed id (pj [tg]) 0 .run (env 40)
+      (applyOp (pj [tg]) (.write 0 [2] 25) (runHist Cfg.fixed id (pj [tg]) (checks 0 [env 20, env 30]) s).1)).2.ran = [0] := by
+  decide
+
+/-- `C04_partial_timestamp`: a history using every allowed kind of step on a project with a checksum
+and two timestamp tasks (distinct marker names, non-decreasing clock), after which the timestamp
+task without generates IS skipped — and `goodRun` holds -/
+example :
+    let t := mk [120] .timestamp false 2
+    let pr := pj [t, mk [121] .timestamp true 1, mk [122] .checksum false 1]
+    let hist : List Step := [w0, .inv 0 .run { env 10 with failAt := some 1 }, .inv 0 .dry (env 20), .inv 0 .status (env 30),
+      .inv 0 .listJson (env 40), .inv 1 .run { env 45 with yes := false }, run 0 50, .inv 1 .force (env 60), run 2 65,
+      .inv 0 .force (env 70), .op (.touch 0 45)]
+    (∀ st ∈ hist, Allowed st) ∧ ClockOK 0 hist ∧ NoPosGenerates t ∧ Ts t ∧
+    (invoke Cfg.fixed id pr 0 .run (env 99) (runHist Cfg.fixed id pr hist State.empty).1).2.skipped = true ∧
+    goodRun id pr 0 t (runHist Cfg.fixed id pr hist State.empty).1 = true := by
+  refine ⟨?_, by decide, by decide, by decide, by decide, by decide⟩
+  intro st hst
+  simp only [List.mem_cons, List.not_mem_nil, or_false] at hst
+  rcases hst with h | h | h | h | h | h | h | h | h | h | h <;> subst h <;> simp [Allowed, w0, run, env]
+
+example : TsKeysDistinct (pj [mk [120] .timestamp false 2, mk [121] .timestamp true 1, mk [122] .checksum false 1]) := by
+  intro i j ti tj hi hj hti htj hk
+  match i, j with
+  | 0, 0 => rfl
+  | 1, 1 => rfl
+  | 2, 2 => rfl
+  | 0, 1 => simp [pj] at hi hj; subst hi hj; simp [tsKey, mk, normalize, keepChar] at hk
+  | 1, 0 => simp [pj] at hi hj; subst hi hj; simp [tsKey, mk, normalize, keepChar] at hk
+  | 2, _ => simp [pj] at hi; subst hi; exact absurd hti.1 (by simp [mk])
+  | 0, 2 => simp [pj] at hj; subst hj; exact absurd htj.1 (by simp [mk])
+  | 1, 2 => simp [pj] at hj; subst hj; exact absurd htj.1 (by simp [mk])
+  | i + 3, _ => simp [pj] at hi
+  | 0, j + 3 => simp [pj] at hj
+  | 1, j + 3 => simp [pj] at hj
 
 end Props.C04
